@@ -37,20 +37,20 @@ type BoundStats struct {
 }
 
 type Stats struct {
-	Name        string         `json:"name"`
-	Doc         string         `json:"doc"`
-	Bounds      []BoundStats   `json:"bounds"`
-	Executions  int            `json:"executions"`
-	Outcomes    map[string]int `json:"distinct_outcomes"`
-	FirstSched  map[string][]int `json:"first_schedule_per_outcome"`
-	MaxPoints   int            `json:"max_decision_points"`
-	Threads     int            `json:"threads"`
-	Failures    []Failure      `json:"-"`
-	NFailures   int            `json:"failures"`
-	Races       map[string]int `json:"races,omitempty"`
-	WallS       float64        `json:"wall_s"`
-	Exhaustive  bool           `json:"exhaustive"`
-	Cap         string         `json:"cap,omitempty"`
+	Name       string           `json:"name"`
+	Doc        string           `json:"doc"`
+	Bounds     []BoundStats     `json:"bounds"`
+	Executions int              `json:"executions"`
+	Outcomes   map[string]int   `json:"distinct_outcomes"`
+	FirstSched map[string][]int `json:"first_schedule_per_outcome"`
+	MaxPoints  int              `json:"max_decision_points"`
+	Threads    int              `json:"threads"`
+	Failures   []Failure        `json:"-"`
+	NFailures  int              `json:"failures"`
+	Races      map[string]int   `json:"races,omitempty"`
+	WallS      float64          `json:"wall_s"`
+	Exhaustive bool             `json:"exhaustive"`
+	Cap        string           `json:"cap,omitempty"`
 }
 
 type explorer struct {
